@@ -9,6 +9,7 @@
 (*             x error modes x 0..1 arguments                                  *)
 (*  "invalid"  the invalid shapes and keyword-like names, called with 0..2     *)
 (*             arguments or not called                                         *)
+(*  "small"    the union of the three families above                          *)
 (*  "wide"     built slot by slot (for -simulate): 0..3 parameters over all    *)
 (*             kinds, variadic or not, any result mode, 0..n+2 arguments       *)
 EXTENDS NativeMachine, Json
@@ -43,7 +44,8 @@ Init ==
   /\ emitted = FALSE
   /\ phase = "start" /\ sig = <<>> /\ args = <<>> /\ called = TRUE /\ recv = <<>> /\ printed = Unspecified
   /\ IF Family = "wide" THEN b = [stage |-> "np", params |-> <<>>, np |-> 0, variadic |-> FALSE, sig |-> <<>>, nargs |-> 0, args |-> <<>>]
-     ELSE b \in (CASE Family = "args" -> CasesArgs [] Family = "results" -> CasesResults [] Family = "invalid" -> CasesInvalid)
+     ELSE b \in (CASE Family = "args" -> CasesArgs [] Family = "results" -> CasesResults [] Family = "invalid" -> CasesInvalid
+                    [] Family = "small" -> CasesArgs \cup CasesResults \cup CasesInvalid)
 
 Grow ==
   /\ Family = "wide" /\ ~emitted
